@@ -7,6 +7,7 @@
 package bexpr
 
 //@ func CoerceInt64(value) (res, err)
+//@   ensures[C02,C01] lit: err == nil ==> res == box[int64](specParseInt(value, 0, 64))
 //@   ensures[C02,C01] ok: (err == nil) == okInt(value, 0, 64)
 //@   ensures[C02,C01] val: err == nil ==> is[int64](res) && unbox[int64](res) == specParseInt(value, 0, 64)
 //@   ensures syn: err != nil ==> isSyntax(err) == synErrInt(value, 0, 64)
@@ -14,6 +15,7 @@ package bexpr
 //@   assigns nothing
 
 //@ func CoerceUint64(value) (res, err)
+//@   ensures[C02,C01] lit: err == nil ==> res == box[uint64](specParseUint(value, 0, 64))
 //@   ensures[C02,C01] ok: (err == nil) == okUint(value, 0, 64)
 //@   ensures[C02,C01] val: err == nil ==> is[uint64](res) && unbox[uint64](res) == specParseUint(value, 0, 64)
 //@   ensures syn: err != nil ==> isSyntax(err) == synErrUint(value, 0, 64)
@@ -21,6 +23,7 @@ package bexpr
 //@   assigns nothing
 
 //@ func CoerceBool(value) (res, err)
+//@   ensures[C02,C01] lit: err == nil ==> res == box[bool](specParseBool(value))
 //@   ensures[C02,C01] ok: (err == nil) == okBool(value)
 //@   ensures[C02,C01] val: err == nil ==> is[bool](res) && unbox[bool](res) == specParseBool(value)
 //@   ensures syn: err != nil ==> isSyntax(err) == synErrBool(value)
@@ -28,6 +31,7 @@ package bexpr
 //@   assigns nothing
 
 //@ func CoerceFloat32(value) (res, err)
+//@   ensures[C02,C01] lit: err == nil ==> res == box[float32](to32(specParseFloat(value, 32)))
 //@   ensures[C02,C01] ok: (err == nil) == okFloat(value, 32)
 //@   ensures[C02,C01] val: err == nil ==> is[float32](res) && unbox[float32](res) == to32(specParseFloat(value, 32))
 //@   ensures syn: err != nil ==> isSyntax(err) == synErrFloat(value, 32)
@@ -35,6 +39,7 @@ package bexpr
 //@   assigns nothing
 
 //@ func CoerceFloat64(value) (res, err)
+//@   ensures[C02,C01] lit: err == nil ==> res == box[float64](specParseFloat(value, 64))
 //@   ensures[C02,C01] ok: (err == nil) == okFloat(value, 64)
 //@   ensures[C02,C01] val: err == nil ==> is[float64](res) && unbox[float64](res) == specParseFloat(value, 64)
 //@   ensures syn: err != nil ==> isSyntax(err) == synErrFloat(value, 64)
@@ -106,6 +111,7 @@ package bexpr
 //@   ensures[C09] novalue: expression.Value == nil ==> res == nil && err == nil
 //@   ensures[C02,C01] ok: expression.Value != nil ==> (err == nil) == litOK(rvalue, expression.Value.Raw)
 //@   ensures[C02,C01] syn: expression.Value != nil && err != nil ==> isSyntax(err) == litSynErr(rvalue, expression.Value.Raw)
+//@   ensures[C02,C01] lit: expression.Value != nil && err == nil ==> res == LitAny(rvalue, expression.Value.Raw)
 //@   ensures[C02,C01,C09] bool: expression.Value != nil && err == nil && rvalue == K.Bool ==> is[bool](res) && unbox[bool](res) == specParseBool(expression.Value.Raw)
 //@   ensures[C02,C01,C09] int: expression.Value != nil && err == nil && isIntK(rvalue) ==> is[int64](res) && unbox[int64](res) == specParseInt(expression.Value.Raw, 0, 64)
 //@   ensures[C02,C01,C09] uint: expression.Value != nil && err == nil && isUintK(rvalue) ==> is[uint64](res) && unbox[uint64](res) == specParseUint(expression.Value.Raw, 0, 64)
@@ -123,11 +129,16 @@ package bexpr
 //@ func doMatchIn(expression, value) (res, err)
 //@   requires expression != nil && expression.Value != nil
 //@   ensures[C09] err_false: err != nil ==> !res
+//@   ensures[C01] spec: outcome(res, err) == InSpec(value, expression.Value.Raw)
 //@   assigns nothing
 //@   loop 1:
 //@     invariant 0 <= i
+//@     invariant[C01] InIfaceFrom(value, expression.Value.Raw, i) == InIfaceFrom(value, expression.Value.Raw, 0)
+//@     decreases rlen(value) - i
 //@   loop 2:
 //@     invariant 0 <= i
+//@     invariant[C01] InConcFrom(value, expression.Value.Raw, i) == InConcFrom(value, expression.Value.Raw, 0)
+//@     decreases rlen(value) - i
 
 //@ func doMatchMatches(expression, value) (res, err)
 //@   requires expression != nil && expression.Value != nil && cacheOK(expression.Value)
